@@ -6,6 +6,7 @@ import gen as G
 
 class C05(Prop):
     pid = "C05"
+    shrinkable = False      # a case IS one cell of the table (recording run + judged call); nothing to shrink
     rule = ("EXHAUSTIVE enumeration of CI in {on,off} x Update option in {unset,true,false} x UPDATE_SNAPS in "
             "{unset,true,clean, 11 other strings incl. 1/t/TRUE/True/false/yes} x five entry points x entry state in {missing, equal, different} = 360 cells (x the other-string variants), "
             "each executed through the public API (plus random repeats with different values/names); the oracle is the "
@@ -66,11 +67,16 @@ class C05(Prop):
         obs = [r for r in results if r[0] == "obs"]
         fss = [r for r in results if r[0] == "fs"]
         op_with_obs = [o for o in ops if o[0] not in ("init", "dumpfs", "counters")]
-        if len(op_with_obs) != len(obs) or len(fss) != 2:
+        if len(op_with_obs) != len(obs) or len(fss) != 2 or not obs:
             return []
         (name, kv), (_, idx, o) = list(zip(op_with_obs, obs))[-1]
-        if name != "match":
-            return []
+        if name != "match" or o["outcome"] == "nocall":
+            return []      # (a shrunk case whose Config handle is gone makes no call)
+        names = [n_ for n_, _ in ops if n_ != "init"]
+        if names[-3:] != ["dumpfs", "match", "dumpfs"]:
+            return []      # (a shrunk case that lost its shape: the file system is inspected right before and after the judged call)
+        if state != "missing" and not fss[0][2]:
+            return []      # (a shrunk case that lost the recording run: the cell's state no longer holds)
         exp_out, exp_write = self.expected(ci, opt, upd, state)
         wrote = o["writes"] != "-" or fss[0][2] != fss[1][2]
         if o["outcome"] != exp_out or wrote != exp_write:
